@@ -47,10 +47,16 @@ func (propC10) Draw(rt *rapid.T, w *WorldDesc, mode string) *Plan {
 		p.Hook = &HookPlan{Present: true, Status: rapid.SampledFrom([]int{418, 422, 503, 409}).Draw(rt, "hook.status"), ReturnMsg: rapid.SampledFrom([]string{"", "error"}).Draw(rt, "hook.msg"), MsgText: "teapot"}
 	case 5:
 		p.Hook = &HookPlan{Present: true, Headers: [][2]string{{"X-Hook", "yes"}, {"Retry-After", "7"}}}
+		if rapid.Bool().Draw(rt, "hook.selective") {
+			// the documented pattern: a status for some errors only (e.g. 404 for NotFoundError)
+			p.Hook.Status = rapid.SampledFrom([]int{404, 409, 422}).Draw(rt, "hook.selstatus")
+			p.Hook.StatusOnlyFor = rapid.SampledFrom([][]string{{"err-custom"}, {"err-custom", "err-wrapped-custom"}, {"err-plain"}, {"header", "url", "body", "rule"}}).Draw(rt, "hook.selfor")
+		}
 	case 6:
 		p.Hook = &HookPlan{Present: true, WriteBody: "hook wrote this", Status: rapid.SampledFrom([]int{0, 451}).Draw(rt, "hook.wstatus")}
 	}
-	nOps := rapid.IntRange(1, 3).Draw(rt, "nOps")
+	nOps := rapid.IntRange(1, 4).Draw(rt, "nOps")
+	p.Sequential = rapid.Bool().Draw(rt, "sequential")
 	ctClient := rapid.SampledFrom([]string{"application/json", "application/x-protobuf"}).Draw(rt, "clientCT")
 	p.Clients = [][]Opt{{{Kind: "contentType", Value: ctClient}}}
 	for i := 0; i < nOps; i++ {
@@ -140,6 +146,11 @@ func (propC10) Draw(rt *rapid.T, w *WorldDesc, mode string) *Plan {
 		case "rule":
 			if !breakRule(w, req) {
 				src = "err-validation"
+			} else {
+				// possibly several violations in one request
+				for extra := rapid.IntRange(0, 2).Draw(rt, l+".morerules"); extra > 0; extra-- {
+					breakAnotherRule(w, req)
+				}
 			}
 		}
 		op.App.Kind = "respond"
@@ -359,7 +370,7 @@ func (propC10) Check(k *Kernel, cov *Coverage) *Violation {
 		if isValidation {
 			wantStatus = 400
 		}
-		if hooked && hp.Status > 0 {
+		if hooked && hp.Status > 0 && hookStatusApplies(hp, c) {
 			wantStatus = hp.Status
 		} else if hooked && hp.WriteBody != "" {
 			wantStatus = 200 // the hook wrote the body without choosing a status: net/http's implicit 200
@@ -428,7 +439,7 @@ func (propC10) Check(k *Kernel, cov *Coverage) *Violation {
 		if fam == "proto" {
 			wantCT = "application/x-protobuf"
 		}
-		if !(hooked && hp.Status > 0) && !strings.HasPrefix(rh.Get("Content-Type"), wantCT) {
+		if !(hooked && hp.Status > 0 && hookStatusApplies(hp, c)) && !strings.HasPrefix(rh.Get("Content-Type"), wantCT) {
 			return &Violation{Class: "wrong-content-type", Signature: sig("wrong-content-type", ""),
 				Detail: fmt.Sprintf("op %d %s: request content type %q, error response content type %q, want %s; body=%q", c.Op.ID, c.Op.RPC, reqCT, rh.Get("Content-Type"), wantCT, truncBytes(rbody))}
 		}
@@ -522,7 +533,8 @@ func (propC10) Check(k *Kernel, cov *Coverage) *Violation {
 					return &Violation{Class: "client-violations-differ", Signature: sig("client-violations-differ", ""),
 						Detail: fmt.Sprintf("op %d: server sent %v, TS client error carries %v", c.Op.ID, violationSet(sve), violationSet(cve))}
 				}
-			} else if status != 400 {
+			} else {
+				// any other failure (incl. a 400 whose body is not a violation list)
 				if kind != "api" || numInt(c.TSError["statusCode"]) != status || fmt.Sprint(c.TSError["body"]) != string(rbody) {
 					return &Violation{Class: "client-error-loses-status", Signature: sig("client-error-loses-status", ""),
 						Detail: fmt.Sprintf("op %d: server answered %d %q, TS client rejected with %v", c.Op.ID, status, truncBytes(rbody), c.TSError)}
@@ -537,4 +549,56 @@ func (propC10) Check(k *Kernel, cov *Coverage) *Violation {
 func isValidationMsg(m proto.Message) bool {
 	_, ok := m.(*sebufhttp.ValidationError)
 	return ok
+}
+
+// breakAnotherRule breaks one more declared rule somewhere in req (a different field
+// than those already violated, when there is one).
+func breakAnotherRule(w *WorldDesc, req proto.Message) {
+	before := len(expectedRuleFields(req))
+	var visit func(m protoreflect.Message, depth int) bool
+	visit = func(m protoreflect.Message, depth int) bool {
+		if depth > 4 {
+			return false
+		}
+		sm, _ := w.Spec().FindMessage("." + string(m.Descriptor().FullName()))
+		if sm == nil {
+			return false
+		}
+		fds := m.Descriptor().Fields()
+		for i := 0; i < fds.Len(); i++ {
+			fd := fds.Get(i)
+			sf := sm.Field(string(fd.Name()))
+			if sf == nil {
+				continue
+			}
+			if r := sf.Rules; r != nil && sf.Card == "" {
+				cp := proto.Clone(m.Interface()).ProtoReflect()
+				switch {
+				case r.MinLen != nil && fd.Kind() == protoreflect.StringKind:
+					m.Set(fd, protoreflect.ValueOfString(""))
+				case r.MaxLen != nil && fd.Kind() == protoreflect.StringKind:
+					m.Set(fd, protoreflect.ValueOfString(strings.Repeat("z", int(*r.MaxLen)+3)))
+				case len(r.In) > 0 && fd.Kind() == protoreflect.StringKind:
+					m.Set(fd, protoreflect.ValueOfString("definitely-not-in-list"))
+				case r.Gt != nil:
+					setInt(m, fd, *r.Gt)
+				case r.Gte != nil:
+					setInt(m, fd, *r.Gte-1)
+				case r.Lt != nil:
+					setInt(m, fd, *r.Lt)
+				}
+				if len(expectedRuleFields(req)) > before {
+					return true
+				}
+				_ = cp
+			}
+			if fd.Kind() == protoreflect.MessageKind && !fd.IsMap() && !fd.IsList() && m.Has(fd) && fd.Message().FullName() != "google.protobuf.Timestamp" {
+				if visit(m.Mutable(fd).Message(), depth+1) {
+					return true
+				}
+			}
+		}
+		return false
+	}
+	visit(req.ProtoReflect(), 0)
 }
